@@ -42,7 +42,11 @@ func (ch Chain) Moduli(maxLogN int) (q, p []uint64) {
 	}
 	pool := map[int][]uint64{}
 	for b, k := range need {
-		pool[b] = uni.Primes(maxLogN, b, k)
+		if b < 0 { // −b: primes just ABOVE 2^|b| (bit length |b|+1 although log2 rounds to |b|)
+			pool[b] = ref.PrimesNear(uint64(1)<<uint(-b), uint64(1)<<uint(maxLogN+2), k, false)
+		} else {
+			pool[b] = uni.Primes(maxLogN, b, k)
+		}
 	}
 	take := func(b int) uint64 {
 		v := pool[b][0]
